@@ -55,6 +55,12 @@ def check_state(ctx, fam, est, expect_len, desc, where):
                 ctx.issue("violation", f"{tag}:label-range", f"{where}: labels {labels.tolist()} n_clusters {ncl}", rep)
             if sorted(set(est.map.values())) != list(range(ncl)):
                 ctx.issue("violation", f"{tag}:map-range", f"{where}: map values {sorted(set(est.map.values()))} n_clusters {ncl}", rep)
+            # one counter per base category (labels are cluster labels, so only length and total can be compared)
+            cnt = [int(t) for t in est.weight_sample_counter_]
+            bcnt = [int(t) for t in est.base_module.weight_sample_counter_]
+            if cnt != bcnt or len(cnt) != len(W) or sum(cnt) != expect_len:
+                ctx.issue("violation", f"{tag}:counters", f"{where}: weight_sample_counter_ {cnt} (base module {bcnt}) for {len(W)} "
+                          f"categories and {expect_len} samples presented since the last fit", rep)
             continue
         if ncl != len(W):
             ctx.issue("violation", f"{tag}:n_clusters", f"{where}: n_clusters={ncl} len(W)={len(W)}", rep)
